@@ -48,6 +48,15 @@ StartRun ==
         /\ ran' = {}
         /\ running' = {}
         /\ tainted' = {}
+        /\ outLast' = [n \in 1..Len(p.nodes) |-> None]
+        /\ outPrev' = [n \in 1..Len(p.nodes) |-> None]
+        /\ kfTaint' = [n \in 1..Len(p.nodes) |-> ""]
+        /\ nested' = {}
+        /\ topDone' = {}
+        /\ bpSkip' = {}
+        /\ spSeen' = {}
+        /\ kfFw' = {}
+        /\ kfHard' = [n \in 1..Len(p.nodes) |-> ""]
         /\ viol' = IF Acyclic(p) THEN viol ELSE Append(viol, V(l, "harness_cyclic_program", 0, 0, 0))
         /\ stats' = stats
     /\ Consume
@@ -55,8 +64,7 @@ StartRun ==
 EndRun ==
     /\ IsEvent("reset")
     /\ viol' = IF running # {} THEN Append(viol, V(l, "executor_still_running_at_end", 0, 0, 0)) ELSE viol
-    /\ UNCHANGED <<prog, inputs, pend, insess, refreshing, world, sample, pendSample,
-                   epoch, live, snap, lastRun, ran, running, tainted, stats>>
+    /\ UNCHANGED <<prog, sessVars, world, rdrVars, runVars, kfVars, stats>>
     /\ Consume
 
 TBegin == IsEvent("begin") /\ Begin(l) /\ Consume
@@ -69,6 +77,7 @@ TTracked == IsEvent("tracked") /\ Tracked(l, Ev.t) /\ Consume
 TDrop == IsEvent("drop") /\ DropTracked(l, Ev.t) /\ Consume
 TQuery == IsEvent("query") /\ Query(l, Ev.t, Ev.n, Ev.v) /\ Consume
 TEnter == IsEvent("enter") /\ Enter(l, Ev.n) /\ Consume
+TRead == IsEvent("read") /\ Read(l, Ev.n, Ev.d, Ev.v) /\ Consume
 TExec ==
     /\ IsEvent("exec")
     /\ IF ~Ev.ok THEN ExecCut(l, Ev.n)
@@ -78,13 +87,12 @@ TExec ==
 TRestart == IsEvent("restart") /\ Restart(l) /\ Consume
 
 Known == {"prog", "reset", "begin", "set", "world", "refresh_start", "refresh",
-          "commit", "tracked", "drop", "query", "enter", "exec", "restart"}
+          "commit", "tracked", "drop", "query", "enter", "read", "exec", "restart"}
 
 TUnknown ==
     /\ l <= Len(Rec) /\ Ev.e \notin Known
     /\ viol' = Append(viol, V(l, "harness_unknown_event", 0, 0, 0))
-    /\ UNCHANGED <<prog, inputs, pend, insess, refreshing, world, sample, pendSample,
-                   epoch, live, snap, lastRun, ran, running, tainted, stats>>
+    /\ UNCHANGED <<prog, sessVars, world, rdrVars, runVars, kfVars, stats>>
     /\ Consume
 
 Finish ==
@@ -97,7 +105,7 @@ Finish ==
 
 TraceNext ==
     \/ StartRun \/ EndRun \/ TBegin \/ TSet \/ TWorld \/ TRefreshStart \/ TRefresh
-    \/ TCommit \/ TTracked \/ TDrop \/ TQuery \/ TEnter \/ TExec \/ TRestart
+    \/ TCommit \/ TTracked \/ TDrop \/ TQuery \/ TEnter \/ TRead \/ TExec \/ TRestart
     \/ TUnknown \/ Finish
 
 TraceSpec == TraceInit /\ [][TraceNext]_traceVars
